@@ -7,6 +7,7 @@ import (
 	"time"
 )
 
+//verif:quote approx
 //verif:ints lia
 //verif:unwind 32
 //verif:maxconcretize 16
